@@ -359,6 +359,21 @@ impl<'a> Ctx<'a> {
                 serde_json::json!({"fmt": fmt, "hex": hex(&bytes[..bytes.len().min(400)])}),
             );
         }
+        // C09 monitor (independent of the model): the bytes the real ENCODER produced decode to a value that encodes to the same
+        // bytes again (formats whose answer is the re-encoding; "ok <hex>")
+        if origin == "valid" && cls == "ok" && matches!(fmt, "slip" | "hop" | "tx" | "msg" | "hsresp" | "services" | "gt" | "ghost") {
+            if let Some(re) = ans.split(' ').nth(if fmt == "msg" { 2 } else { 1 }) {
+                {
+                    if re != hex(bytes) {
+                        self.out.monitor_fail(
+                            &format!("C09/{}/roundtrip", fmt),
+                            "an encoding produced by the real encoder decodes to a value that encodes to other bytes (a field was lost or changed)",
+                            serde_json::json!({"fmt": fmt, "hex": hex(&bytes[..bytes.len().min(2000)]), "reencoded": &re[..re.len().min(4000)]}),
+                        );
+                    }
+                }
+            }
+        }
         let ratio = (peak as u64 * 1000) / (bytes.len() as u64 + 512);
         if ratio > self.max_ratio_milli {
             self.max_ratio_milli = ratio;
